@@ -524,6 +524,16 @@ Proof.
   subst. contradiction.
 Qed.
 
+(* whatever Close returns on the streams of s: nothing of s is retained, and a stream registered
+   for (s, p) afterwards - the next run of the same session id - is the one handed out *)
+Lemma release_any_close_result : forall fails P m s p x,
+  sm_get (fst (sm_release_f fails P m s)) s p = None /\
+  sm_get (sm_add (fst (sm_release_f fails P m s)) s p x) s p = Some x.
+Proof.
+  intros fails P m s p x. unfold sm_release_f. split; [apply release_none_retained|].
+  rewrite add_get_same. now rewrite release_none_retained.
+Qed.
+
 Lemma nth_map_seq : forall A (f : nat -> A) d n k, k < n -> nth k (map f (seq 0 n)) d = f k.
 Proof.
   intros A f d n k H. rewrite (nth_indep _ d (f 0)) by (rewrite map_length, seq_length; exact H).
@@ -658,4 +668,130 @@ Proof.
     specialize (H2 u Hin). rewrite forallb_forall in H2.
     assert (Hiw : In w (seq 0 n)) by (apply in_seq; lia). specialize (H2 w Hiw).
     rewrite Hs, Nat.eqb_refl, Hau, Haw in H2. cbn in H2. now apply Nat.eqb_eq.
+Qed.
+
+(* ------------------------------------------------------------------------------------------ *)
+(* Part 4: Libp2pCommunication over the stream map.                                             *)
+Lemma memb_In : forall x l, memb x l = true <-> In x l.
+Proof.
+  intros x l. unfold memb. rewrite existsb_exists. split.
+  - intros [y [Hy He]]. apply Nat.eqb_eq in He. now subst.
+  - intro H. exists x. split; [exact H | apply Nat.eqb_refl].
+Qed.
+
+Lemma memb_false : forall x l, memb x l = false <-> ~ In x l.
+Proof.
+  intros x l. rewrite <- memb_In. destruct (memb x l); split; intro H; try reflexivity;
+    try discriminate; try (intro H'; discriminate). now exfalso; apply H.
+Qed.
+
+Lemma in_row : forall P m s x, In x (row P m s) <-> exists p, p < P /\ m s p = Some x.
+Proof. intros P m s x. exact (release_closes_registered P m s x). Qed.
+
+(* the invariant that ties the model state (m, nx) to the state (cl, live) the judge keeps *)
+Record CommInv (P : nat) (m : smap) (nx : nat) (cl : list nat) (live : nat -> list nat) : Prop := {
+  ci_open   : forall s p x, m s p = Some x -> ~ In x cl;
+  ci_closed : forall x, In x cl -> x < nx;
+  ci_live   : forall s x, In x (live s) -> exists p, p < P /\ m s p = Some x;
+  ci_fresh  : forall s p x, m s p = Some x -> x < nx;
+  ci_once   : forall s p s' p' x, m s p = Some x -> m s' p' = Some x -> s = s' /\ p = p'
+}.
+
+Lemma comm_ok_model_gen : forall P ops m nx cl live,
+  CommInv P m nx cl live -> peers_below P ops = true ->
+  comm_ok cl live ops (model_cobs P (m, nx) ops) = true.
+Proof.
+  intros P ops. induction ops as [|o ops IH]; intros m nx cl live HI HP; [reflexivity|].
+  cbn [peers_below forallb] in HP. apply andb_prop in HP. destruct HP as [Hp HP].
+  destruct HI as [HA HB HC HE HD].
+  destruct o as [s p | s].
+  - apply Nat.ltb_lt in Hp. cbn [model_cobs comm_step]. unfold sm_get.
+    destruct (m s p) as [x|] eqn:Hm.
+    + cbn [comm_ok]. apply andb_true_intro. split.
+      * apply negb_true_iff, memb_false. now apply (HA s p).
+      * apply IH; [|exact HP]. constructor; try assumption.
+        intros s1 x1 Hin. unfold upd in Hin. destruct (Nat.eqb_spec s1 s) as [->|Hne].
+        -- destruct Hin as [<-|Hin]; [exists p; now split | now apply HC].
+        -- now apply HC.
+    + cbn [comm_ok]. apply andb_true_intro. split.
+      * apply negb_true_iff, memb_false. intro Hin. apply HB in Hin. lia.
+      * apply IH; [|exact HP].
+        assert (Hget : forall s1 p1 x1, sm_add m s p nx s1 p1 = Some x1 ->
+                  (s1 = s /\ p1 = p /\ x1 = nx) \/ ((s1, p1) <> (s, p) /\ m s1 p1 = Some x1)).
+        { intros s1 p1 x1 H1. unfold sm_add in H1. rewrite Hm in H1.
+          destruct (Nat.eqb_spec s1 s) as [->|Hs]; destruct (Nat.eqb_spec p1 p) as [->|Hq]; cbn in H1.
+          - left. injection H1 as <-. now repeat split.
+          - right. split; [intro Hc; injection Hc as Hc; contradiction | exact H1].
+          - right. split; [intro Hc; injection Hc as Hc; contradiction | exact H1].
+          - right. split; [intro Hc; injection Hc as Hc; contradiction | exact H1]. }
+        assert (Hkeep : forall s1 p1 x1, m s1 p1 = Some x1 -> sm_add m s p nx s1 p1 = Some x1).
+        { intros s1 p1 x1 H1. change (sm_get (sm_add m s p nx) s1 p1 = Some x1).
+          rewrite add_get_other; [exact H1|]. intro Hc. injection Hc as -> ->. rewrite Hm in H1. discriminate. }
+        assert (Hnew : sm_add m s p nx s p = Some nx).
+        { change (sm_get (sm_add m s p nx) s p = Some nx). rewrite add_get_same. unfold sm_get. now rewrite Hm. }
+        constructor.
+        -- intros s1 p1 x1 H1. destruct (Hget _ _ _ H1) as [[_ [_ ->]] | [_ H2]].
+           ++ intro Hin. apply HB in Hin. lia.
+           ++ now apply (HA s1 p1).
+        -- intros x Hin. apply HB in Hin. lia.
+        -- intros s1 x1 Hin. unfold upd in Hin. destruct (Nat.eqb_spec s1 s) as [->|Hne].
+           ++ destruct Hin as [<-|Hin]; [exists p; now split|].
+              destruct (HC _ _ Hin) as [p0 [Hp0 Hm0]]. exists p0. split; [exact Hp0 | now apply Hkeep].
+           ++ destruct (HC _ _ Hin) as [p0 [Hp0 Hm0]]. exists p0. split; [exact Hp0 | now apply Hkeep].
+        -- intros s1 p1 x1 H1. destruct (Hget _ _ _ H1) as [[_ [_ ->]] | [_ H2]]; [lia|].
+           apply HE in H2. lia.
+        -- intros s1 p1 s2 p2 x H1 H2.
+           destruct (Hget _ _ _ H1) as [[-> [-> ->]] | [_ H1']];
+             destruct (Hget _ _ _ H2) as [[-> [-> Hx]] | [_ H2']].
+           ++ now split.
+           ++ apply HE in H2'. lia.
+           ++ subst x. apply HE in H1'. lia.
+           ++ now apply (HD s1 p1 s2 p2 x).
+  - cbn [model_cobs comm_step]. cbn [sm_release]. cbn [comm_ok].
+    apply andb_true_intro. split.
+    + apply forallb_forall. intros x Hin. apply memb_In, in_row. now apply HC.
+    + apply IH; [|exact HP].
+      assert (Hrel : forall s1 p1 x1,
+                (if Nat.eqb s1 s then None else m s1 p1) = Some x1 -> s1 <> s /\ m s1 p1 = Some x1).
+      { intros s1 p1 x1 H1. destruct (Nat.eqb_spec s1 s); [discriminate | now split]. }
+      constructor.
+      * intros s1 p1 x1 H1. apply Hrel in H1. destruct H1 as [Hne H1]. intro Hin.
+        apply in_app_or in Hin. destruct Hin as [Hin|Hin]; [|now apply (HA s1 p1 x1)].
+        apply in_row in Hin. destruct Hin as [p0 [_ Hm0]].
+        destruct (HD _ _ _ _ _ H1 Hm0) as [Heq _]. contradiction.
+      * intros x Hin. apply in_app_or in Hin. destruct Hin as [Hin|Hin]; [|now apply HB].
+        apply in_row in Hin. destruct Hin as [p0 [_ Hm0]]. now apply (HE s p0).
+      * intros s1 x1 Hin. unfold upd in Hin. destruct (Nat.eqb_spec s1 s) as [->|Hne]; [destruct Hin|].
+        destruct (HC _ _ Hin) as [p0 [Hp0 Hm0]]. exists p0. split; [exact Hp0|].
+        destruct (Nat.eqb_spec s1 s); [contradiction | exact Hm0].
+      * intros s1 p1 x1 H1. apply Hrel in H1. now apply (HE s1 p1).
+      * intros s1 p1 s2 p2 x H1 H2. apply Hrel in H1. apply Hrel in H2.
+        now apply (HD s1 p1 s2 p2 x).
+Qed.
+
+Lemma comm_ok_model : forall P ops, peers_below P ops = true ->
+  comm_ok [] (fun _ => []) ops (model_cobs P (sm_empty, 0) ops) = true.
+Proof.
+  intros P ops H. apply comm_ok_model_gen; [|exact H].
+  constructor; unfold sm_empty; intros; try discriminate; try contradiction.
+Qed.
+
+(* what the judge means, for the two things the property asks of the streams: after CloseSession s
+   (observed as the second of two consecutive operations here, the general case is the recursion
+   of comm_ok) every stream the session used is among the closed ones, and a message sent after a
+   stream was closed is never written to that stream *)
+Lemma comm_ok_sound_close : forall cl live s ops xs obs,
+  comm_ok cl live (CClose s :: ops) (CClosed xs :: obs) = true ->
+  (forall x, In x (live s) -> In x xs) /\ comm_ok (xs ++ cl) (upd live s []) ops obs = true.
+Proof.
+  intros cl live s ops xs obs H. cbn [comm_ok] in H. apply andb_prop in H. destruct H as [H1 H2].
+  split; [|exact H2]. intros x Hin. rewrite forallb_forall in H1. now apply memb_In, H1.
+Qed.
+
+Lemma comm_ok_sound_send : forall cl live s p ops x obs,
+  comm_ok cl live (CSend s p :: ops) (CWrote x :: obs) = true ->
+  ~ In x cl /\ comm_ok cl (upd live s (x :: live s)) ops obs = true.
+Proof.
+  intros cl live s p ops x obs H. cbn [comm_ok] in H. apply andb_prop in H. destruct H as [H1 H2].
+  split; [|exact H2]. now apply memb_false, negb_true_iff.
 Qed.
